@@ -78,6 +78,17 @@ class Dm14Net:
 
     def _notify(self):
         self.notify_count += 1
+        i = self.plan_i
+        plan = self.plans[i] if i < len(self.plans) else None
+        if self.scn.get('inline_respond') and plan is not None and plan.get('action') == 'respond' and plan.get('data'):
+            # a single-threaded serving application: answers a read from inside the notify callback
+            self.plan_i += 1
+            try:
+                r = self.server.respond(plan.get('proceed', True), list(plan['data']), plan.get('error', 0xFFFFFF), plan.get('edcp', 0xFF), plan.get('max_timeout', 1))
+                self.respond_results.append((self.sim.now, i, None if r is None else bytes(bytearray(r))))
+            except Exception as e:      # noqa
+                self.respond_results.append((self.sim.now, i, e))
+            return
         self.notify_q.put(1)
 
     def _server_app(self):
